@@ -231,6 +231,11 @@ def _run_opt(params, values):
         recs.append({"key": "option-routes-differ", "option": name, "what": "attribute read-back"})
     if not (r1.options[name] == b.options[name] == c.options[name] == val):
         recs.append({"key": "option-routes-differ", "option": name, "what": "item read-back"})
+    # the constructor route must not leak into the shared preset: a fresh instance still has the preset's own value
+    with no_tracing():
+        fresh = MarkdownIt(params["cfg"]["preset"])
+    if dict(fresh.options) != dict(a.options):
+        recs.append({"key": "constructor-options-leak-into-preset", "option": name})
     outs = []
     for p in PROBES:
         try:
